@@ -31,7 +31,7 @@ RULE = ('seeded generator over {covariance shape (scalar/vector/matrix/3-stack) 
         'given or not x number of models 1..5} and {evaluation dimensionality 2..5 x NaN samples x test type}; '
         'non-trivial: >=2 models or >=3 samples; distinct = configuration signature')
 ASSUMPTIONS = ['generated covariances are positive semi-definite', 'n_rdm, n_pattern >= 2 when given']
-REQUIRED = ['check:fixed_vs_scipy', 'check:extract_variances', 'check:dual_bootstrap_bounds', 'check:p_range',
+REQUIRED = ['check:fixed_vs_scipy', 'check:extract_variances', 'check:result_variances', 'check:dual_bootstrap_bounds', 'check:p_range',
             'check:pairwise_symmetry', 'check:t_monotone', 'check:means_sem', 'check:model_permutation']
 REACH = ['extract_variances', '_correct_1d', '_dual_bootstrap', 't_tests', 't_test_0', 't_test_nc',
          'bootstrap_pair_tests', 'ranksum_pair_test', 'ranksum_value_test', 'all_tests', 'pair_tests', 'zero_tests',
@@ -172,6 +172,19 @@ def run_extract(ctx):
     if not ok:
         return
     mv, dv, ncv = [np.asarray(x, dtype=float) for x in out]
+    # the same covariance handed to a Result object: its stored variances are those of the direct extraction
+    if shape != 'scalar':
+        ev_d = rng.standard_normal((4, n_model))
+        nc_d = np.sort(rng.uniform(0.5, 1, size=(2, 4)), axis=0)
+        ok_r, res = ctx.guarded('result_variances', sig, Result, dummy_models(n_model), ev_d, 'cosine', 'bootstrap', nc_d,
+                                variances=np.array(var, copy=True), dof=3, n_rdm=n_rdm, n_pattern=n_pat, data=wit)
+        if ok_r:
+            ctx.case('result_variances', sig)
+            for name, got_r, want_r in (('model_var', res.model_var, mv), ('diff_var', res.diff_var, dv),
+                                        ('noise_ceil_var', res.noise_ceil_var, ncv)):
+                if not close(np.asarray(got_r, dtype=float), want_r, 1e-12, 1e-15):
+                    ctx.fail('result_variances', dict(sig, what=name), f'Result.{name} = {np.asarray(got_r).tolist()} but '
+                             f'extract_variances on the same covariance gives {want_r.tolist()}', wit())
     if shape != 'stack3':
         ctx.case('extract_variances', sig, sample={'shape': shape, 'nc_included': nc, 'n_rdm': n_rdm,
                                                    'n_pattern': n_pat, 'n_model': n_model})
